@@ -224,7 +224,29 @@ func main() {
 		if *replay != "" {
 			fmt.Println("replaying", *replay, "(re-evaluating all obligations of", *prop, "on the current tree)")
 		}
+		// View 1: every rule on the plain per-function graphs.  While it runs, the functions the
+		// rules name (anchors, targets) are collected.
+		prog.DisableInline = true
+		if os.Getenv("VCHECK_FORCEINLINE") != "" { // debugging: decide everything on the interprocedural view
+			func() {
+				defer func() { _ = recover() }()
+				p.Run(&an.Ctx{P: prog, Prop: *prop, Tier: *tier, Start: start, VerifDir: *verif, Extra: map[string]any{}})
+			}()
+			prog.DisableInline = false
+			prog.ResetFns()
+		}
 		p.Run(ctx)
+		// View 2, only consulted when view 1 reports something that is not a listed finding: the
+		// interprocedural view — same-package helpers that no rule names are inlined (an/inline.go),
+		// so a rule whose sites moved into an extracted helper is decided on the code the helper
+		// contains.  An obligation is discharged when it is discharged in either view.
+		if os.Getenv("VCHECK_NOINLINE") == "" && ctx.HasNewViolations() {
+			prog.DisableInline = false
+			prog.ResetFns()
+			ctx2 := &an.Ctx{P: prog, Prop: *prop, Tier: *tier, Start: start, VerifDir: *verif, Extra: map[string]any{}}
+			p.Run(ctx2)
+			ctx.MergeView(ctx2)
+		}
 		code = ctx.Finish(seed, p.Level, p.Assumptions)
 	}()
 	os.Exit(code)
